@@ -8,3 +8,14 @@ add("C16", "E3", "fault_enumeration",
     "POSIX durability model (content at fsync(fd), entries at fsync(dirfd), atomic rename); pyarrow writer bytes are "
     "volatile until the library's fsync; seams see every os call the library's modules make (module-level os/tempfile/pq proxies).",
     "DESIGN.md 2.4 E3c, 3 C16")
+add("C01", "E1", "model_checking",
+    "stateless interleaving exploration of the real commit path under a controlled scheduler (state cache, deviation bounds)",
+    "Every interleaving of 2 writers (all unordered operation pairs x {shared handle, separate handles} x {local flock, "
+    "CAS-S3 over an in-memory S3} x {ticking, frozen clock}) at shared-storage-operation granularity is executed on the "
+    "real code, without a preemption bound; 3-4 writers under a stated preemption bound. Each complete execution is judged "
+    "against a sequential reference model applied in pointer-advance order. A coverage statement over schedules is exactly "
+    "what the property quantifies over.",
+    "Scheduling points only at operations on objects shared by >=2 actors (dynamic shared-set fixpoint, Lipton reduction); "
+    "in-memory S3 is strongly consistent with AWS conditional-write semantics; local backend uses real flock/rename on tmpfs; "
+    "the virtual clock replaces wall time; no unsynchronised shared memory between points (shared-field audit in DESIGN.md).",
+    "DESIGN.md 2.4 E1, 3 C01")
